@@ -198,3 +198,76 @@ func (p *Pool) Put(x any) {
 
 // ResetPools is called between executions by harnesses that want a cold pool.
 func (p *Pool) Reset() { p.items = nil }
+
+// Map is the real sync.Map: it is internally synchronised and never blocks, so
+// under the cooperative scheduler it needs no scheduling point of its own.
+type Map = sync.Map
+
+// Cond mirrors sync.Cond.
+type Cond struct {
+	L    Locker
+	real *sync.Cond
+	gen  int // incremented by Broadcast
+	sig  int // pending Signal tokens
+}
+
+// NewCond mirrors sync.NewCond.
+func NewCond(l Locker) *Cond { return &Cond{L: l, real: sync.NewCond(l)} }
+
+func (c *Cond) Wait() {
+	if !vrt.Active() {
+		c.real.Wait()
+		return
+	}
+	g := c.gen
+	c.L.Unlock()
+	vrt.Await("Cond.Wait", func() bool { return c.gen != g || c.sig > 0 })
+	if c.gen == g {
+		c.sig--
+	}
+	c.L.Lock()
+}
+
+func (c *Cond) Signal() {
+	if !vrt.Active() {
+		c.real.Signal()
+		return
+	}
+	c.sig++
+}
+
+func (c *Cond) Broadcast() {
+	if !vrt.Active() {
+		c.real.Broadcast()
+		return
+	}
+	c.gen++
+	c.sig = 0
+}
+
+// OnceFunc mirrors sync.OnceFunc.
+func OnceFunc(f func()) func() {
+	var o Once
+	return func() { o.Do(f) }
+}
+
+// OnceValue mirrors sync.OnceValue.
+func OnceValue[T any](f func() T) func() T {
+	var o Once
+	var v T
+	return func() T {
+		o.Do(func() { v = f() })
+		return v
+	}
+}
+
+// OnceValues mirrors sync.OnceValues.
+func OnceValues[T1, T2 any](f func() (T1, T2)) func() (T1, T2) {
+	var o Once
+	var a T1
+	var b T2
+	return func() (T1, T2) {
+		o.Do(func() { a, b = f() })
+		return a, b
+	}
+}
